@@ -90,7 +90,7 @@ pub fn check_pointers(msg: &[u8], case: &mut Case) -> Result<usize, Fail> {
 }
 
 /// (packet, starting offset of the writer)
-type In = (Sharing, u16);
+pub type In = (Sharing, u16);
 
 fn check(input: &In, case: &mut Case) -> Result<(), Fail> {
     let (s, origin) = input;
@@ -133,4 +133,8 @@ pub fn def() -> CheckDef {
         assumptions: vec!["RP/AFSDB/RT/NSAP-PTR names (RFC 1183/1348) are class 'may': compressed or not is accepted", "same exclusions as C02"],
         sections: vec![Box::new(PropSection { name: "pointers", rule: "pointer validity and use", strategy, cases: (40_000, 600_000), check })],
     }
+}
+
+pub fn check_pub(input: &In, case: &mut Case) -> Result<(), Fail> {
+    check(input, case)
 }
